@@ -10,7 +10,7 @@
 (*    xnone |-> x is None (only for optional x),                                                         *)
 (*    n     |-> length of x (string / bytes) or number of items (list kinds),                            *)
 (*    il    |-> length of every item (list kinds, else 0),                                               *)
-(*    ch    |-> the character every string consists of: "a" | "b" | "c" | "eacute" | "grin",             *)
+(*    ch    |-> the character every string consists of: "a" | "b" | "c" | "eacute" | "grin" | "u<hex>",  *)
 (*    ynone |-> y is None (only meaningful when the scenario has a foreign guard)]                       *)
 (*                                                                                                       *)
 (* C11: a case with mut = "none" whose instance satisfies ALL invariants (SpecValid) is admitted by the  *)
@@ -22,8 +22,15 @@ EXTENDS Constraints
 MaxLen == 7       \* constants are <= 4
 NVal == 2         \* the value of self.n in every instance
 
-Chars == {"a", "b", "c", "eacute", "grin"}
+\* characters by id; "u<hex>" are astral code points at the edges of the high-surrogate blocks of the "ar<n>" patterns
+SpecialChars == {"eacute", "grin", "u10000", "u1000f", "u10005", "u103ff", "u10400", "u10405", "u107ff", "u10800", "u10bff",
+                 "u101d0", "u10c00", "u11bff", "u11fff"}
+Chars == {"a", "b", "c"} \cup SpecialChars
 CharCP(ch) == CASE ch = "a" -> CP_a [] ch = "b" -> CP_b [] ch = "c" -> CP_c [] ch = "eacute" -> CP_eacute [] ch = "grin" -> CP_grin
+                [] ch = "u10000" -> 65536 [] ch = "u1000f" -> 65551 [] ch = "u10005" -> 65541 [] ch = "u103ff" -> 66559
+                [] ch = "u10400" -> 66560 [] ch = "u10405" -> 66565 [] ch = "u107ff" -> 67583 [] ch = "u10800" -> 67584
+                [] ch = "u10bff" -> 68607 [] ch = "u101d0" -> 66000 [] ch = "u10c00" -> 68608 [] ch = "u11bff" -> 72703
+                [] ch = "u11fff" -> 73727
 Str(ch, n) == [j \in 1..n |-> CharCP(ch)]
 
 IsListKind(S) == S.kind \in {"list", "listcprim"}
@@ -101,10 +108,12 @@ YChoices(S) == IF HasForeignGuard(S) THEN {TRUE, FALSE} ELSE {TRUE}
 GoodChars(S, k) ==
     LET ps == ExpectedPats(S, k, StringSlot(S))
         hasLen == \E a \in SlotAtoms(S, k, StringSlot(S)) : a.k = "len"
-    IN  {"b"} \cup (IF hasLen THEN {} ELSE {ch \in {"eacute", "grin"} : ps # {} /\ \A p \in ps : CharCP(ch) \in PatAllowed(p)})
+    IN  {"b"} \cup (IF hasLen THEN {} ELSE {ch \in SpecialChars : ps # {} /\ \A p \in ps : PatAllows(p, CharCP(ch))})
 BadChars(S, k) ==
     LET ps == ExpectedPats(S, k, StringSlot(S))
-    IN  {ch \in {"a", "c"} : \E p \in ps : CharCP(ch) \notin PatAllowed(p)}
+        hasLen == \E a \in SlotAtoms(S, k, StringSlot(S)) : a.k = "len"
+        cands == {"a", "c"} \cup (IF ~hasLen /\ ps \cap {"ar1", "ar2", "ar3", "ar8"} # {} THEN SpecialChars ELSE {})
+    IN  {ch \in cands : \E p \in ps : ~PatAllows(p, CharCP(ch))}
 
 ItemLens(S, k, yn) == IF S.kind = "listcprim" THEN Boundary(ValidLensOf(S, k, "i", yn)) ELSE IF S.kind = "list" THEN {1} ELSE {0}
 
